@@ -27,7 +27,8 @@ type Page struct {
 type Case struct {
 	Leaf   string  `json:"leaf"`
 	Limit  int     `json:"limit"`
-	Via    string  `json:"via"` // "indexer" | "writer"
+	Via    string  `json:"via"`              // "indexer" | "writer" | "multi" (writer + row group cuts, index of the MultiRowGroup)
+	Splits []int   `json:"splits,omitempty"` // "multi": a row group ends after these page positions
 	Pages  []Page  `json:"pages"`
 	Probes []ref.V `json:"probes"`
 }
@@ -43,7 +44,7 @@ func genCase(t *rapid.T) Case {
 	c.Leaf = gen.LeafID(t, leafIDs, "leaf")
 	l := ref.ParseLeaf(c.Leaf)
 	c.Limit = []int{1, 2, 4, 16, 64, 1 << 20}[rapid.IntRange(0, 5).Draw(t, "limit")]
-	c.Via = []string{"indexer", "indexer", "indexer", "writer"}[rapid.IntRange(0, 3).Draw(t, "via")]
+	c.Via = []string{"indexer", "indexer", "indexer", "writer", "multi"}[rapid.IntRange(0, 4).Draw(t, "via")]
 	layout := rapid.IntRange(0, 5).Draw(t, "layout") // 0-2 ascending, 3 descending, 4-5 arbitrary
 	st := []gen.Style{gen.Mixed, gen.SmallDom, gen.Wide}[rapid.IntRange(0, 2).Draw(t, "style")]
 	o := gen.Opts{NoNaN: true, MaxBytes: 24}
@@ -125,6 +126,12 @@ func genCase(t *rapid.T) Case {
 	for k := 0; k < nabs; k++ {
 		add(gen.LeafV(t, l, st, o, "probe"))
 	}
+	if c.Via == "multi" && len(c.Pages) >= 2 {
+		ns := rapid.IntRange(1, 2).Draw(t, "nsplits")
+		for k := 0; k < ns; k++ {
+			c.Splits = append(c.Splits, rapid.IntRange(1, len(c.Pages)-1).Draw(t, "split"))
+		}
+	}
 	return c
 }
 
@@ -193,7 +200,7 @@ func buildIndex(c Case, l ref.Leaf, node parquet.Node) (parquet.ColumnIndex, err
 	var buf bytes.Buffer
 	w := parquet.NewWriter(&buf, schema, parquet.ColumnIndexSizeLimit(func([]string) int { return c.Limit }))
 	cw := w.ColumnWriters()[0]
-	for _, p := range c.Pages {
+	for pi, p := range c.Pages {
 		var vals []parquet.Value
 		// nulls interleaved after the first value (or alone)
 		for i, v := range p.Values {
@@ -215,6 +222,14 @@ func buildIndex(c Case, l ref.Leaf, node parquet.Node) (parquet.ColumnIndex, err
 		if err := cw.Flush(); err != nil {
 			return nil, fmt.Errorf("Flush: %w", err)
 		}
+		for _, sp := range c.Splits {
+			if c.Via == "multi" && sp == pi+1 {
+				if err := w.Flush(); err != nil {
+					return nil, fmt.Errorf("Writer.Flush: %w", err)
+				}
+				break
+			}
+		}
 	}
 	if err := w.Close(); err != nil {
 		return nil, fmt.Errorf("Close: %w", err)
@@ -222,6 +237,10 @@ func buildIndex(c Case, l ref.Leaf, node parquet.Node) (parquet.ColumnIndex, err
 	f, err := parquet.OpenFile(bytes.NewReader(buf.Bytes()), int64(buf.Len()))
 	if err != nil {
 		return nil, fmt.Errorf("OpenFile: %w", err)
+	}
+	if c.Via == "multi" {
+		// the index a MultiRowGroup derives from the indexes of its members
+		return parquet.MultiRowGroup(f.RowGroups()...).ColumnChunks()[0].ColumnIndex()
 	}
 	if len(f.RowGroups()) != 1 {
 		return nil, fmt.Errorf("want 1 row group, got %d", len(f.RowGroups()))
